@@ -170,7 +170,7 @@ func (P *Program) runReplayTest(pkgPath, body, dir, oblName string) (string, boo
 	ovData, _ := json.Marshal(ov)
 	ovFile := filepath.Join(dir, "overlay_"+fmt.Sprint(hashString(oblName))+".json")
 	os.WriteFile(ovFile, ovData, 0o644)
-	ctx, cancel := context.WithTimeout(context.Background(), 300*time.Second)
+	ctx, cancel := context.WithTimeout(context.Background(), 900*time.Second)
 	defer cancel()
 	cmd := exec.CommandContext(ctx, "go", "test", "-overlay", ovFile, "-vet=off", "-count=1", "-timeout", "60s", "-run", "^TestVerifReplay$", "./"+pkgDir)
 	cmd.Dir = P.repo
@@ -349,11 +349,11 @@ func (P *Program) runGoTests(files map[string]string, dir string) (map[string]bo
 	ovData, _ := json.Marshal(map[string]map[string]string{"Replace": {target: testFile}})
 	ovFile := filepath.Join(dir, "overlay_witness.json")
 	os.WriteFile(ovFile, ovData, 0o644)
-	ctx, cancel := context.WithTimeout(context.Background(), 300*time.Second)
+	ctx, cancel := context.WithTimeout(context.Background(), 900*time.Second)
 	defer cancel()
-	cmd := exec.CommandContext(ctx, "go", "test", "-overlay", ovFile, "-vet=off", "-count=1", "-timeout", "120s", "-v", "-run", "^TestVerifWitness", "./pkg/yqlib")
+	cmd := exec.CommandContext(ctx, "go", "test", "-overlay", ovFile, "-vet=off", "-count=1", "-timeout", "600s", "-v", "-run", "^TestVerifWitness", "./pkg/yqlib")
 	cmd.Dir = P.repo
-	cmd.Env = append(os.Environ(), "GOFLAGS=-mod=mod", "GOPROXY=off", "GOSUMDB=off", "GOTOOLCHAIN=local")
+	cmd.Env = append(os.Environ(), "GOFLAGS=-mod=mod", "GOPROXY=off", "GOSUMDB=off", "GOTOOLCHAIN=local", "YQV_TIER="+currentTier)
 	var out bytes.Buffer
 	cmd.Stdout = &out
 	cmd.Stderr = &out
@@ -384,6 +384,10 @@ func (P *Program) runGoTests(files map[string]string, dir string) (map[string]bo
 	}
 	return res, o
 }
+
+// currentTier: quick|thorough, handed to the executed and bounded checks (YQV_TIER) so that the thorough tier can
+// widen their bounds.
+var currentTier = "quick"
 
 // lastGoTestSections: obligation name -> the part of the last go test output that belongs to it.
 var lastGoTestSections = map[string]string{}
